@@ -864,6 +864,7 @@ fn run_ao(c: &AoCase, _ctx: &Ctx) -> Outcome {
         craft_before_prune: false,
         repacked_or_marked: false,
         recovered: 0,
+        vhours: 0,
     };
     if !c.at_init {
         for op in &c.pre {
